@@ -275,3 +275,295 @@ theorem load_tempo_eq_model {α : Type} (conv : Conv α) (between : Int → Int 
           simp [column]
         simp only [hw, npConcat2, cellNums_map_num, e1, Bool.not_false, if_true]
         simp [raised]
+
+/-! ## `load_ragged_time_series` -/
+
+/-- the line loop of `load_ragged_time_series` is the model's `loadRaggedRows`, times and value arrays being
+    appended as they come -/
+theorem ragged_loop_eq {α : Type} (tconv vconv : Conv α) (d : Delim) (c : Option (List Char)) :
+    ∀ (lines : List (List Char)) (n : Nat) (times : List α) (values : List (List α)),
+    Mir.Gen.io.load_ragged_time_series_loop1 tconv c (c.map reCompileStart) d vconv (n : Int) times values lines =
+      obs (match loadRaggedRows tconv vconv d c n lines with
+           | .ok rows => .ok (times ++ rows.map Prod.fst, values ++ rows.map Prod.snd)
+           | .error e => .error e)
+  | [], n, times, values => by
+    simp [Mir.Gen.io.load_ragged_time_series_loop1, loadRaggedRows, pure, Except.pure]
+  | l :: ls, n, times, values => by
+    have hn : ((n : Int) + 1) = ((n + 1 : Nat) : Int) := by omega
+    simp only [Mir.Gen.io.load_ragged_time_series_loop1, loadRaggedRows, reMatch_compiled, bind, Except.bind, hn]
+    cases hcm : isComment c l with
+    | true => simpa using ragged_loop_eq tconv vconv d c ls (n + 1) times values
+    | false =>
+      simp only [Bool.false_eq_true, if_false, loadRaggedLine, reSplitAll, strip]
+      cases hd : reSplit d 0 (stripPy l) with
+      | nil => simp [index, raised]
+      | cons t vs =>
+        simp only [index_zero_cons, sliceFrom, List.drop_succ_cons, List.drop_zero]
+        cases ht : tconv t with
+        | none => simp [raised]
+        | some tv =>
+          cases hv : mapConv vconv vs with
+          | none => simp [raised]
+          | some vv =>
+            simp only [ragged_loop_eq tconv vconv d c ls (n + 1) (times ++ [tv]) (values ++ [vv])]
+            cases loadRaggedRows tconv vconv d c (n + 1) ls <;> simp
+
+/-- **`load_ragged_time_series` as translated = the model** (`dtype` = the converter of the value columns, `float` =
+    the converter of the time stamps; `header=True` skips the first line and numbers the rest from 1) -/
+theorem load_ragged_time_series_eq_model {α : Type} (tconv vconv : Conv α) (s : List Char) (d : Delim)
+    (header : Bool) (c : Option (List Char)) :
+    Mir.Gen.io.load_ragged_time_series tconv s vconv d header c = obs (loadRagged tconv vconv d header c s) := by
+  have h0 : ((0 : Nat) : Int) = 0 := rfl
+  have h1 : ((1 : Nat) : Int) = 1 := rfl
+  unfold Mir.Gen.io.load_ragged_time_series loadRagged
+  cases c <;> cases header <;>
+    simp only [reCompile, openLines, skipLine, bind, Except.bind, pure, Except.pure, if_true, if_false,
+      Bool.false_eq_true] <;>
+    first
+      | (have := ragged_loop_eq tconv vconv d none (splitLines s) 0 [] []
+         simp only [h0, Option.map] at this
+         simp only [this]
+         cases loadRaggedRows tconv vconv d none 0 (splitLines s) <;> simp)
+      | (have := ragged_loop_eq tconv vconv d none ((splitLines s).drop 1) 1 [] []
+         simp only [h1, Option.map] at this
+         simp only [this]
+         cases loadRaggedRows tconv vconv d none 1 ((splitLines s).drop 1) <;> simp)
+      | (rename_i m
+         have := ragged_loop_eq tconv vconv d (some m) (splitLines s) 0 [] []
+         simp only [h0, Option.map] at this
+         simp only [this]
+         cases loadRaggedRows tconv vconv d (some m) 0 (splitLines s) <;> simp)
+      | (rename_i m
+         have := ragged_loop_eq tconv vconv d (some m) ((splitLines s).drop 1) 1 [] []
+         simp only [h1, Option.map] at this
+         simp only [this]
+         cases loadRaggedRows tconv vconv d (some m) 1 ((splitLines s).drop 1) <;> simp)
+
+/-! ## `load_patterns` -/
+
+theorem flush_eq {α : Type} (st : PatState α) :
+    (if (!st.occ.isEmpty) = true then st.pattern ++ [st.occ] else st.pattern) = st.flushOcc := by
+  unfold PatState.flushOcc
+  cases st.occ.isEmpty <;> rfl
+
+theorem close_eq {α : Type} (st : PatState α) :
+    (if (!st.flushOcc.isEmpty) = true then st.list ++ [st.flushOcc] else st.list) = st.close := by
+  unfold PatState.close
+  cases st.flushOcc.isEmpty <;> rfl
+
+/-- the line loop of `load_patterns` is the model's state machine `patRun` -/
+theorem patterns_loop_eq {α : Type} (conv : Conv α) : ∀ (lines : List (List Char)) (st : PatState α),
+    Mir.Gen.io.load_patterns_loop1 conv st.pattern st.list st.occ lines =
+      obs (match patRun conv st lines with
+           | .ok st' => .ok (st'.pattern, st'.list, st'.occ)
+           | .error e => .error e)
+  | [], st => by simp [Mir.Gen.io.load_patterns_loop1, patRun, pure, Except.pure]
+  | l :: ls, st => by
+    simp only [Mir.Gen.io.load_patterns_loop1, patRun, patStep, contains_pattern, contains_occurrence, bind,
+      Except.bind, pure, Except.pure, ite_ok, flush_eq, close_eq]
+    cases hpk : hasSub patKw l with
+    | true =>
+      have ih := patterns_loop_eq conv ls ⟨st.close, [], []⟩
+      simp only [if_true]
+      exact ih
+    | false =>
+      simp only [Bool.false_eq_true, if_false]
+      cases hok : hasSub occKw l with
+      | true =>
+        have ih := patterns_loop_eq conv ls ⟨st.list, st.flushOcc, []⟩
+        simp only [if_true]
+        exact ih
+      | false =>
+        simp only [Bool.false_eq_true, if_false]
+        have hs : strSplit [','] l = splitComma l := rfl
+        rw [hs]
+        match hsc : splitComma l with
+        | [] => simp [raised]
+        | [a] => simp [raised]
+        | a :: b :: more =>
+          have e1 : decide (len (a :: b :: more) < (2 : Int)) = false :=
+            decide_eq_false (by simp only [len_eq, List.length_cons]; omega)
+          simp only [e1, Bool.false_eq_true, if_false, index_zero_cons, index_one_cons, callConv]
+          cases ha : conv a with
+          | none => simp [raised]
+          | some x =>
+            cases hb : conv b with
+            | none => simp [raised]
+            | some y =>
+              have ih := patterns_loop_eq conv ls ⟨st.list, st.pattern, st.occ ++ [(x, y)]⟩
+              simp only [ih]
+
+/-- **`load_patterns` as translated = the model** -/
+theorem load_patterns_eq_model {α : Type} (conv : Conv α) (s : List Char) :
+    Mir.Gen.io.load_patterns conv s = obs (loadPatterns conv s) := by
+  unfold Mir.Gen.io.load_patterns loadPatterns
+  have := patterns_loop_eq conv (splitLines s) PatState.init
+  simp only [PatState.init] at this
+  simp only [openLines, bind, Except.bind, pure, Except.pure, this, PatState.init]
+  cases patRun conv ⟨[], [], []⟩ (splitLines s) with
+  | error e => rfl
+  | ok st =>
+    simp only [obs_ok, ite_ok, flush_eq, close_eq]
+
+/-! ## C20's headline theorems on the TRANSLATED loaders -/
+
+/-- **round trip, file order** (`load_delimited` as translated): a file of comment lines and well-formed rows loads as
+    exactly the encoded columns, rows in file order -/
+theorem gen_load_roundtrip {γ : Type} (convs : List (Conv γ)) (d : Delim) (c : Option (List Char))
+    (items : List (Item γ)) (h : ∀ it ∈ items, it.WF convs d c) :
+    Mir.Gen.io.load_delimited (renderFile items) convs d c =
+      .ok (Cols.ofList (columns convs.length (dataRows items))) := by
+  rw [load_delimited_eq_model, Mir.C20.load_roundtrip convs d c items h]; rfl
+
+/-- **wrong number of columns ⇒ `ValueError` naming the 1-based row** (as translated) -/
+theorem gen_wrong_columns_error {γ : Type} (convs : List (Conv γ)) (d : Delim) (c : Option (List Char))
+    (items : List (Item γ)) (h : ∀ it ∈ items, it.WF convs d c)
+    (bad tail : List Char) (hn : '\n' ∉ bad) (hc : isComment c (bad ++ ['\n']) = false)
+    (hk : (reSplit d ((convs.length : Int) - 1) (stripPy (bad ++ ['\n']))).length ≠ convs.length) :
+    Mir.Gen.io.load_delimited (renderFile items ++ (bad ++ '\n' :: tail)) convs d c =
+      .error ⟨.valueError, some ((items.length : Int) + 1)⟩ := by
+  rw [load_delimited_eq_model, Mir.C20.wrong_columns_error convs d c items h bad tail hn hc hk]
+  simp [Except.map, observe, LoadErr.toPy, LoadErr.row?]
+
+/-- **unparsable token ⇒ `ValueError` naming the 1-based row** (as translated) -/
+theorem gen_bad_number_error {γ : Type} (convs : List (Conv γ)) (d : Delim) (c : Option (List Char))
+    (items : List (Item γ)) (h : ∀ it ∈ items, it.WF convs d c)
+    (badLine tail : List Char) (hn : '\n' ∉ badLine) (hc : isComment c (badLine ++ ['\n']) = false)
+    (good : List (Fld γ)) (cs1 : List (Conv γ)) (cbad : Conv γ) (cs2 : List (Conv γ))
+    (bad : List Char) (extra : List (List Char))
+    (hconvs : convs = cs1 ++ cbad :: cs2) (hgood : ConvOK cs1 good) (hbad : cbad bad = none)
+    (hsplit : reSplit d ((convs.length : Int) - 1) (stripPy (badLine ++ ['\n'])) = good.map Fld.text ++ bad :: extra)
+    (hlen : extra.length = cs2.length) :
+    Mir.Gen.io.load_delimited (renderFile items ++ (badLine ++ '\n' :: tail)) convs d c =
+      .error ⟨.valueError, some ((items.length : Int) + 1)⟩ := by
+  rw [load_delimited_eq_model, Mir.C20.bad_number_error convs d c items h badLine tail hn hc good cs1 cbad cs2 bad
+    extra hconvs hgood hbad hsplit hlen]
+  simp [Except.map, observe, LoadErr.toPy, LoadErr.row?]
+
+/-- **whatever the file, the translated `load_delimited` fails only with a `ValueError` whose message names a line of
+    the file (1-based)** -/
+theorem gen_errors_are_valueErrors_naming_a_row {γ : Type} (convs : List (Conv γ)) (d : Delim)
+    (c : Option (List Char)) (content : List Char) (e : Raised)
+    (h : Mir.Gen.io.load_delimited content convs d c = .error e) :
+    e.cls = .valueError ∧ ∃ r : Nat, e.row = some (r : Int) ∧ 1 ≤ r ∧ r ≤ (splitLines content).length := by
+  rw [load_delimited_eq_model] at h
+  cases hm : loadDelimited convs d c content with
+  | ok cols => simp [hm, Except.map] at h
+  | error e' =>
+    simp only [hm, Except.map, obs_error, Except.error.injEq] at h
+    obtain ⟨h1, r, h2, h3, h4⟩ := Mir.C20.errors_are_valueErrors_naming_a_row convs d c content e' hm
+    subst h
+    exact ⟨h1, r, by simp [observe, h2], h3, h4⟩
+
+/-- **`load_events` as translated**: one number per line comes back in file order -/
+theorem gen_load_events_roundtrip {α : Type} (conv : Conv α) (d : Delim) (c : Option (List Char))
+    (rows : List (EventRow α)) (h : ∀ it ∈ rows.map EventRow.item, it.WF [numConv conv] d c) :
+    Mir.Gen.io.load_events conv (renderFile (rows.map EventRow.item)) d c = .ok (rows.map fun r => r.time.val) := by
+  rw [load_events_eq_model, Mir.C20.load_events_roundtrip conv d c rows h]; rfl
+
+/-- **`load_labeled_intervals` as translated**: `(start, stop)` pairs and labels, both in file order -/
+theorem gen_load_labeled_intervals_roundtrip {α : Type} (conv : Conv α) (d : Delim) (c : Option (List Char))
+    (rows : List (LabeledIntervalRow α))
+    (h : ∀ it ∈ rows.map LabeledIntervalRow.item, it.WF [numConv conv, numConv conv, strConv] d c) :
+    Mir.Gen.io.load_labeled_intervals conv (renderFile (rows.map LabeledIntervalRow.item)) d c =
+      .ok (rows.map (fun r => (r.start.val, r.stop.val)), rows.map (fun r => Cell.str r.label)) := by
+  rw [load_labeled_intervals_eq_model, Mir.C20.load_labeled_intervals_roundtrip conv d c rows h]
+  simp [Except.map]
+
+/-- **key files as translated**: one two-column row loads as `"scale mode"`; several rows are a `ValueError` -/
+theorem gen_key_roundtrip (d : Delim) (c : Option (List Char)) (items : List (Item (List Char)))
+    (h : ∀ it ∈ items, it.WF [some, some] d c) (scale mode : List Char)
+    (hrows : dataRows items = [[scale, mode]]) :
+    Mir.Gen.io.load_key (renderFile items) d c = .ok (scale ++ ' ' :: mode) := by
+  rw [load_key_eq_model, Mir.C20.key_roundtrip d c items h scale mode hrows]; rfl
+
+theorem gen_key_not_one_line (d : Delim) (c : Option (List Char)) (s : List Char) (rows : List (List (List Char)))
+    (h : loadTable (α := List Char) [some, some] d c s = .ok rows) (hlen : rows.length ≠ 1) :
+    Mir.Gen.io.load_key s d c = .error ⟨.valueError, none⟩ := by
+  rw [load_key_eq_model, (Mir.C20.key_single_line d c s rows h).2 hlen]; rfl
+
+/-- **tempo files as translated**: the weight test decides between the row and a `ValueError` -/
+theorem gen_tempo_weight_range {α : Type} (conv : Conv α) (between : Int → Int → α → Bool) (d : Delim)
+    (c : Option (List Char)) (items : List (Item α)) (h : ∀ it ∈ items, it.WF [conv, conv, conv] d c) (t1 t2 w : α)
+    (hrows : dataRows items = [[t1, t2, w]]) :
+    (between 0 1 w = true →
+      Mir.Gen.io.load_tempo conv between (renderFile items) d c = .ok ([t1, t2], Cell.num w)) ∧
+    (between 0 1 w = false →
+      Mir.Gen.io.load_tempo conv between (renderFile items) d c = .error ⟨.valueError, none⟩) := by
+  obtain ⟨h1, h2⟩ := Mir.C20.tempo_weight_range conv (between 0 1) d c items h t1 t2 w hrows
+  constructor <;> intro hw
+  · rw [load_tempo_eq_model, h1 hw]; rfl
+  · rw [load_tempo_eq_model, h2 hw]; rfl
+
+/-- **ragged round trip as translated**, with or without a header row -/
+theorem gen_ragged_roundtrip {α : Type} (tconv vconv : Conv α) (d : Delim) (c : Option (List Char)) (header : Bool)
+    (hdr : List Char) (hh : '\n' ∉ hdr) (items : List (RItem α)) (h : ∀ it ∈ items, it.WF tconv vconv d c) :
+    Mir.Gen.io.load_ragged_time_series tconv (withHeader header hdr (renderRagged items)) vconv d header c =
+      .ok ((raggedData items).map Prod.fst, (raggedData items).map Prod.snd) := by
+  rw [load_ragged_time_series_eq_model, Mir.C20.ragged_roundtrip tconv vconv d c header hdr hh items h]; rfl
+
+/-- **unparsable time stamp as translated**: `ValueError` naming the line as the loader numbers it (from 0, or from 1
+    after a header row) -/
+theorem gen_ragged_bad_time_error {α : Type} (tconv vconv : Conv α) (d : Delim) (c : Option (List Char))
+    (header : Bool) (hdr : List Char) (hh : '\n' ∉ hdr)
+    (items : List (RItem α)) (h : ∀ it ∈ items, it.WF tconv vconv d c)
+    (bad tail : List Char) (hn : '\n' ∉ bad) (hc : isComment c (bad ++ ['\n']) = false)
+    (t : List Char) (vs : List (List Char)) (hsplit : reSplit d 0 (stripPy (bad ++ ['\n'])) = t :: vs)
+    (ht : tconv t = none) :
+    Mir.Gen.io.load_ragged_time_series tconv
+        (withHeader header hdr (renderRagged items ++ (bad ++ '\n' :: tail))) vconv d header c =
+      .error ⟨.valueError, some (((if header then 1 else 0) + items.length : Nat) : Int)⟩ := by
+  rw [load_ragged_time_series_eq_model,
+    Mir.C20.ragged_bad_time_error tconv vconv d c header hdr hh items h bad tail hn hc t vs hsplit ht]
+  rfl
+
+/-- **patterns round trip as translated** -/
+theorem gen_patterns_roundtrip {α : Type} (conv : Conv α) (ps : List (PatSpec α)) (h : ∀ p ∈ ps, p.WF conv)
+    (hlines : ∀ l ∈ ps.flatMap PatSpec.lines, ∃ t, l = t ++ ['\n'] ∧ '\n' ∉ t) :
+    Mir.Gen.io.load_patterns conv (ps.flatMap PatSpec.lines).flatten = .ok (ps.map PatSpec.value) := by
+  rw [load_patterns_eq_model, Mir.C20.patterns_roundtrip conv ps h hlines]; rfl
+
+/-- **whatever the file, the translated `load_patterns` fails only with `ValueError`** -/
+theorem gen_patterns_errors_are_valueErrors {α : Type} (conv : Conv α) (s : List Char) (e : Raised)
+    (h : Mir.Gen.io.load_patterns conv s = .error e) : e.cls = .valueError := by
+  rw [load_patterns_eq_model] at h
+  cases hm : loadPatterns conv s with
+  | ok v => simp [hm] at h
+  | error e' =>
+    simp only [hm, obs_error, Except.error.injEq] at h
+    subst h
+    exact Mir.C20.patterns_errors_are_valueErrors conv s e' hm
+
+/-! ## non-vacuity: the translated loaders run (the driver's converters; numbers come back as their tokens) -/
+
+example : Mir.Gen.io.load_delimited "# c\n0.5 kick\n 1e0\t#snare drum \n".toList [numConv floatConv, strConv] .ws
+    (some ['#']) = .ok (.many [[.num "0.5".toList, .num "1e0".toList], [.str "kick".toList, .str "#snare drum".toList]]) := by
+  decide
+example : Mir.Gen.io.load_delimited "0 1\n#c\n2 x\n".toList [numConv floatConv, numConv floatConv] .ws (some ['#'])
+    = .error ⟨.valueError, some 3⟩ := by decide
+example : Mir.Gen.io.load_delimited "0 1\n2\n3 4\n".toList [numConv floatConv, numConv floatConv] .ws (some ['#'])
+    = .error ⟨.valueError, some 2⟩ := by decide
+example : Mir.Gen.io.load_events floatConv "# beats\n0.5\n 1.0 \n1.5".toList .ws (some ['#'])
+    = .ok ["0.5".toList, "1.0".toList, "1.5".toList] := by decide
+example : Mir.Gen.io.load_labeled_intervals floatConv "0.0 1.5 N\n1.5\t3e0  C:maj(9) / 3 \n".toList .ws (some ['#'])
+    = .ok ([("0.0".toList, "1.5".toList), ("1.5".toList, "3e0".toList)], [.str "N".toList, .str "C:maj(9) / 3".toList]) := by
+  decide
+example : Mir.Gen.io.load_key "C#   minor\n".toList .ws (some ['#']) = .ok "C# minor".toList := by decide
+example : Mir.Gen.io.load_key "C major\nD minor\n".toList .ws (some ['#']) = .error ⟨.valueError, none⟩ := by decide
+example : Mir.Gen.io.load_tempo floatConv betweenTok "60 120 0.5\n".toList .ws (some ['#'])
+    = .ok (["60".toList, "120".toList], .num "0.5".toList) := by decide +kernel
+example : Mir.Gen.io.load_tempo floatConv betweenTok "60 120 1.5\n".toList .ws (some ['#'])
+    = .error ⟨.valueError, none⟩ := by decide +kernel
+example : Mir.Gen.io.load_tempo floatConv betweenTok "# nothing\n".toList .ws (some ['#'])
+    = .error ⟨.indexError, none⟩ := by decide +kernel
+example : Mir.Gen.io.load_ragged_time_series floatConv "time f0\n0.0 1.0\nx 2\n".toList floatConv .ws true (some ['#'])
+    = .error ⟨.valueError, some 2⟩ := by decide
+example : Mir.Gen.io.load_ragged_time_series floatConv "0.0,60,64\n# c\n0.5\n1.0,72\n".toList intConv (.lit [',']) false
+    (some ['#']) = .ok (["0.0".toList, "0.5".toList, "1.0".toList], [["60".toList, "64".toList], [], ["72".toList]]) := by
+  decide
+example : Mir.Gen.io.load_patterns floatConv "pattern1\noccurrence1\n0.5, 67.0\noccurrence2\n4.5, 65\n".toList
+    = .ok [[[("0.5".toList, " 67.0\n".toList)], [("4.5".toList, " 65\n".toList)]]] := by decide
+example : Mir.Gen.io.load_patterns floatConv "pattern1\noccurrence1\n1.0\n".toList = .error ⟨.valueError, none⟩ := by
+  decide
+
+end Mir.C20.GenIO
